@@ -96,15 +96,20 @@ theorem SameAll.rfl' (c : Cfg) : SameAll c c := ⟨rfl, rfl, rfl, rfl, rfl, rfl,
 theorem actionStatus_congr {c d : Cfg} (h : d.actions = c.actions) (i : Nat) : actionStatus d i = actionStatus c i := by
   simp [actionStatus, h]
 
-theorem Rob.same {c d : Cfg} (h : Rob c) (s : SameAll c d) : Rob d := by
+theorem Rob.congr {c d : Cfg} (h : Rob c) (hwf : wfOf d.st = wfOf c.st) (hwk : wkOf d.st = wkOf c.st) (hwfs : d.wfs = c.wfs)
+    (hstep : d.stepping = c.stepping) (hint : d.interrupt = c.interrupt) (hact : d.actions = c.actions)
+    (hpau : d.pausing = c.pausing) (hkil : d.killing = c.killing) : Rob d := by
   refine ⟨?_, ?_, ?_, ?_, ?_, ?_⟩
-  · intro hs; rw [s.interrupt]; exact h.int0 (by rw [← s.stepping]; exact hs)
-  · intro i hi; rw [actionStatus_congr s.actions]; exact h.actOk i (by rw [← s.interrupt]; exact hi)
-  · intro i hi; rw [actionStatus_congr s.actions, s.pausing, s.killing]; exact h.alias i (by rw [← s.interrupt]; exact hi)
-  · intro wf k h1 h2; rw [s.stepping, s.interrupt]
-    exact h.intr wf k (by rw [← s.wfOf]; exact h1) (by rw [← s.wfs]; exact h2)
-  · intro wf h1; rw [s.wfs]; exact h.wfv wf (by rw [← s.wfOf]; exact h1)
-  · intro o k h1; exact h.park o k (by rw [← s.wkOf]; exact h1)
+  · intro hs; rw [hint]; exact h.int0 (by rw [← hstep]; exact hs)
+  · intro i hi; rw [actionStatus_congr hact]; exact h.actOk i (by rw [← hint]; exact hi)
+  · intro i hi; rw [actionStatus_congr hact, hpau, hkil]; exact h.alias i (by rw [← hint]; exact hi)
+  · intro wf k h1 h2; rw [hstep, hint]
+    exact h.intr wf k (by rw [← hwf]; exact h1) (by rw [← hwfs]; exact h2)
+  · intro wf h1; rw [hwfs]; exact h.wfv wf (by rw [← hwf]; exact h1)
+  · intro o k h1; exact h.park o k (by rw [← hwk]; exact h1)
+
+theorem Rob.same {c d : Cfg} (h : Rob c) (s : SameAll c d) : Rob d :=
+  h.congr s.wfOf s.wkOf s.wfs s.stepping s.interrupt s.actions s.pausing s.killing
 
 theorem PcOk.congr {c d : Cfg} (h : PcOk c) (hpc' : d.pc = c.pc) (hst : d.stepping = c.stepping)
     (hl : d.st.label = c.st.label) (hw : wfOf d.st = wfOf c.st) (hpf : d.pfs = c.pfs) (hpa : d.paused = c.paused) : PcOk d := by
@@ -360,5 +365,137 @@ theorem kill_rp (c : Cfg) (hr : Rob c) (hp : PcOk c) : Rob (kill c).1 ∧ PcOk (
 
 theorem kill_coh (c : Cfg) (h : Coh c) : Coh (kill c).1 :=
   ⟨(kill_rp c h.rob h.pcOk).1, kill_inv c h.inv, kill_invP c h.invP, (kill_rp c h.rob h.pcOk).2⟩
+
+
+theorem play_rp (c : Cfg) (hr : Rob c) (hp : PcOk c) (hP : InvP c) : Rob (play c).1 ∧ PcOk (play c).1 := by
+  unfold play
+  split
+  · rename_i hpa
+    split
+    · rename_i i hpi
+      have hR := cancelAction_rest c i
+      constructor
+      · refine ⟨?_, ?_, ?_, ?_, ?_, ?_⟩
+        · intro h1
+          show (cancelAction c i).interrupt = none
+          rw [hR.2]; exact hr.int0 (by rw [← hR.1.stepping]; exact h1)
+        · intro j hj
+          have hj' : c.interrupt = some j := by rw [← hR.2]; exact hj
+          show actionStatus (cancelAction c i) j = .pending ∨ actionStatus (cancelAction c i) j = .cancelled
+          by_cases hji : i = j
+          · subst hji; exact Or.inr (cancelAction_self c i (hr.actOk i hj'))
+          · rw [cancelAction_other c i j hji]; exact hr.actOk j hj'
+        · intro j hj
+          have hj' : c.interrupt = some j := by rw [← hR.2]; exact hj
+          show actionStatus (cancelAction c i) j = .cancelled ∨ none = some j ∨ (cancelAction c i).killing = some j
+          by_cases hji : i = j
+          · subst hji; exact Or.inl (cancelAction_self c i (hr.actOk i hj'))
+          · rw [cancelAction_other c i j hji, hR.1.killing]
+            rcases hr.alias j hj' with g | g | g
+            · exact Or.inl g
+            · rw [hpi] at g; cases g; exact absurd rfl hji
+            · exact Or.inr (Or.inr g)
+        · intro wf k h1 h2
+          show (cancelAction c i).stepping = true ∧ (cancelAction c i).interrupt ≠ none
+          rw [hR.1.stepping, hR.2]
+          exact hr.intr wf k (by rw [← hR.1.st]; exact h1) (by rw [← hR.1.wfs]; exact h2)
+        · intro wf h1
+          show wf < (cancelAction c i).wfs.length
+          rw [hR.1.wfs]; exact hr.wfv wf (by rw [← hR.1.st]; exact h1)
+        · intro o k h1; exact hr.park o k (by rw [← hR.1.st]; exact h1)
+      · exact hp.congr hR.1.pc hR.1.stepping (by show (cancelAction c i).st.label = _; rw [hR.1.st])
+          (by show wfOf (cancelAction c i).st = _; rw [hR.1.st]) hR.1.pfs (by show (cancelAction c i).paused = c.paused; exact hR.1.paused)
+    · exact ⟨hr, hp⟩
+  · rename_i pf hpa
+    dsimp only
+    by_cases hfalse : c.pfs[pf]? = some false
+    · simp only [hfalse, if_true]
+      refine ⟨hr.congr rfl rfl rfl rfl rfl rfl rfl rfl, ?_⟩
+      have hlt : pf < c.pfs.length := (List.getElem?_eq_some_iff.mp hfalse).1
+      unfold PcOk at hp ⊢
+      show (match c.pc with
+        | .notStarted => c.stepping = false
+        | .awaitPaused pf' => c.stepping = false ∧ (terminal c.st.label = false →
+            (setAt c.pfs pf true)[pf']? = some true ∨ none = some pf')
+        | .inUser _ => c.stepping = true ∧ wfOf c.st = none
+        | .awaitWaiting wf => c.stepping = true ∧ (terminal c.st.label = true ∨ wfOf c.st = some wf)
+        | .done => c.stepping = false ∧ terminal c.st.label = true
+        | .crashed _ => False)
+      cases hpc : c.pc <;> simp only [hpc] at hp ⊢ <;> try exact hp
+      rename_i pf'
+      refine ⟨hp.1, fun hl => Or.inl ?_⟩
+      by_cases hpp : pf = pf'
+      · subst hpp; simp [setAt, hlt]
+      · rcases hp.2 hl with g | g
+        · rw [setAt_getElem?_ne _ _ _ _ hpp]; exact g
+        · rw [hpa] at g; cases g; exact absurd rfl hpp
+    · simp only [hfalse, if_false]
+      refine ⟨hr.congr rfl rfl rfl rfl rfl rfl rfl rfl, ?_⟩
+      unfold PcOk at hp ⊢
+      show (match c.pc with
+        | .notStarted => c.stepping = false
+        | .awaitPaused pf' => c.stepping = false ∧ (terminal c.st.label = false →
+            c.pfs[pf']? = some true ∨ none = some pf')
+        | .inUser _ => c.stepping = true ∧ wfOf c.st = none
+        | .awaitWaiting wf => c.stepping = true ∧ (terminal c.st.label = true ∨ wfOf c.st = some wf)
+        | .done => c.stepping = false ∧ terminal c.st.label = true
+        | .crashed _ => False)
+      cases hpc : c.pc <;> simp only [hpc] at hp ⊢ <;> try exact hp
+      rename_i pf'
+      refine ⟨hp.1, fun hl => Or.inl ?_⟩
+      rcases hp.2 hl with g | g
+      · exact g
+      · rw [hpa] at g; cases g
+        exact absurd (hP.pausedPending hl pf hpa) hfalse
+
+theorem play_coh (c : Cfg) (h : Coh c) : Coh (play c).1 :=
+  ⟨(play_rp c h.rob h.pcOk h.invP).1, play_inv c h.inv, play_invP c h.invP, (play_rp c h.rob h.pcOk h.invP).2⟩
+
+theorem cancelFut_coh (c : Cfg) (h : Coh c) : Coh (cancelFut c).1 := by
+  unfold cancelFut; split
+  · exact h.same ⟨rfl, rfl, rfl, rfl, rfl, rfl, rfl, rfl, rfl, rfl, rfl, rfl, rfl, rfl, rfl⟩
+  · exact h
+
+theorem complete_coh (c : Cfg) (f o) (h : Coh c) : Coh (complete c f o) := by
+  unfold complete; split
+  · dsimp only; split <;> exact h.same ⟨rfl, rfl, rfl, rfl, rfl, rfl, rfl, rfl, rfl, rfl, rfl, rfl, rfl, rfl, rfl⟩
+  · exact h
+
+theorem awaitableDone_coh (c : Cfg) (f) (h : Coh c) : Coh (awaitableDone c f) := by
+  unfold awaitableDone
+  have hold : ∀ d : Cfg, Coh d → Coh (match d.efKeys.find? (·.1 = f), d.efs[f]? with
+      | some (_, key), some (EFut.result v) => { d with ctx := (key, v) :: d.ctx.filter (·.1 ≠ key) }
+      | _, _ => d) := by
+    intro d hd; split
+    · exact hd.same ⟨rfl, rfl, rfl, rfl, rfl, rfl, rfl, rfl, rfl, rfl, rfl, rfl, rfl, rfl, rfl⟩
+    · exact hd
+  dsimp only
+  split
+  · rename_i fn wf wakeup aw hst
+    split
+    · exact hold c h
+    · have h1 : Coh { c with st := .waiting fn wf wakeup (aw.filter (·.1 ≠ f)) } :=
+        h.same ⟨by simp [hst, SObj.label], by simp [hst, wfOf], by simp [hst, wkOf], rfl, rfl, rfl, rfl, rfl, rfl, rfl, rfl, rfl,
+          rfl, rfl, rfl⟩
+      split
+      · split
+        · exact deliver_coh _ _ (by intro k hk; cases hk)
+            (h1.same ⟨rfl, rfl, rfl, rfl, rfl, rfl, rfl, rfl, rfl, rfl, rfl, rfl, rfl, rfl, rfl⟩)
+        · exact h1.same ⟨rfl, rfl, rfl, rfl, rfl, rfl, rfl, rfl, rfl, rfl, rfl, rfl, rfl, rfl, rfl⟩
+      · exact deliver_coh _ _ (by intro k hk; cases hk) h1
+      · exact h1
+  · exact hold c h
+
+theorem tickCb_coh (c : Cfg) (cb) (h : Coh c) : Coh (tickCb c cb) := by
+  unfold tickCb; split
+  · have h1 : Coh { c with ready := c.ready.erase cb } :=
+      h.same ⟨rfl, rfl, rfl, rfl, rfl, rfl, rfl, rfl, rfl, rfl, rfl, rfl, rfl, rfl, rfl⟩
+    split
+    · exact awaitableDone_coh _ _ h1
+    · exact (kill_coh _ h1).same ⟨rfl, rfl, rfl, rfl, rfl, rfl, rfl, rfl, rfl, rfl, rfl, rfl, rfl, rfl, rfl⟩
+    · split
+      · exact fail_coh _ _ h1
+      · exact h1
+  · exact h
 
 end PMF.H6
